@@ -2,6 +2,7 @@ import Proofs.InterpReal
 import Proofs.InterpSpec
 import Proofs.InterpVocab
 import Proofs.InterpBSE
+import Proofs.InterpStream
 /-!
 # C13 — Log-linear interpolation is the normalised weighted product of its inputs
 
@@ -260,6 +261,32 @@ theorem bse_shift64_witness : BSE.ubFree (List.replicate 32 2 ++ [1]) = false :=
 /-- non-vacuity: 25 entries of width 3 bits cross a 64-bit word boundary -/
 example : BSE.Below (List.replicate 25 6) (List.replicate 25 5) := by decide
 example : BSE.byteLength (List.replicate 25 6) = 10 := by decide
+
+/-! ## Pass 2 as a stream recursion -/
+
+/-- **Pass 2 refines the functional model.**  `sameCtx` / `extendCtx` are the code's
+`Recurse::SameContext` / `ExtendContext`: one stream per order (order 2 first), records consumed
+from the heads, `z` handed down as `z_lower`.  If the streams have the grouped shape of
+`ContextOrder`-sorted, suffix-closed input — below every context `c` first its own records `X c`,
+then, for each left extension `y ∈ Y c` in a common order, the subtree of `y :: c` — then, started
+as `Thread::Run` starts it, the recursion (with `needE` fuel) leaves every stream empty and writes,
+in stream order, `pOut` for every record and `boSame` for every context: exactly the values of the
+functional model (`formula`, `normalised` speak about those).  Any depth `D`, any width.
+What remains outside: that the sort of pass 2 delivers this shape (checked on every generated case
+by the driver: `levelsE … = sortedStream …`), pass 1's stream merge, pass 3's zip. -/
+theorem pass2_stream_refines {W : Type} [DecidableEq W] {F : Type} [Field F]
+    (E : ℚ → F) (cs : Comps W) (V : List W) (X Y : List W → List W)
+    (hX : ∀ c, (X c).Perm (explicit cs c)) (D : Nat) (fuel : Nat)
+    (hfuel : needE Y D (Y []) [] ≤ fuel)
+    (hgood : ∀ y ∈ Y [], X [y] ≠ [] ∧ Good X Y D [y]) (hnd : (Y []).Nodup) :
+    extendCtx E cs fuel (levelsE X Y D (Y []) []) [] (Zinc E cs V []) =
+      (List.replicate (D + 1) [], (Y []).flatMap (fun y => specOut E cs V X Y D [y])) :=
+  pass2_refines E cs V X Y hX D fuel hfuel hgood hnd
+
+/-- non-vacuity: a two-level tree (contexts `[1]`, `[3]`, `[1,3]`-style) satisfies `Good` -/
+example : Good (fun c => if c.length ≤ 2 then [7, 8] else []) (fun c => if c = [] then [1, 3] else if c = [3] then [1] else [])
+    1 [3] := by
+  simp [Good]
 
 /-! ## Real numbers: the log-level statements -/
 section Real
